@@ -170,6 +170,8 @@ TNext ==
        [] e.ev = "Begin" -> UNCHANGED hvars /\ (IF ~intxn THEN Begin ELSE Stutter) /\ viol' = AddViol(viol, FailCheck(e, l))
        [] e.ev = "Commit" -> UNCHANGED hvars /\ (IF intxn THEN Commit ELSE Stutter) /\ viol' = AddViol(viol, FailCheck(e, l) \o PinCheck(e, l))
        [] e.ev = "Abort" -> UNCHANGED hvars /\ (IF intxn THEN Abort ELSE Stutter) /\ viol' = AddViol(viol, FailCheck(e, l) \o PinCheck(e, l))
+       \* a window of concurrent statements on a table that is not modelled: only "nothing failed" and the pins
+       [] e.ev = "Window" -> Stutter /\ UNCHANGED hvars /\ viol' = AddViol(viol, FailCheck(e, l) \o PinCheck(e, l))
        [] e.ev \in {"Stats", "Shutdown"} -> Stutter /\ viol' = AddViol(viol, FailCheck(e, l)) /\ UNCHANGED hvars
        [] e.ev = "Crash" -> Stutter /\ viol' = AddViol(viol, FailCheck(e, l)) /\ hadCrash' = TRUE /\ UNCHANGED hasBtree /\ bt' = [bt EXCEPT !.crashed = @ \cup bt.btTabs]
        [] e.ev = "Reopen" -> /\ Stutter /\ viol' = AddViol(viol, ReopenCheck(e, l)) /\ UNCHANGED <<hadCrash, hasBtree>>
